@@ -407,3 +407,96 @@ func TestDrive_C17(t *testing.T) {
 	pf := execProfile{name: "C17", kinds: allKinds, maxDepth: 5, extPct: 10, coopPct: 40, maxReqs: 4, withExec: true}
 	driveExec(t, "C17", pf, 400, 12000, "random stacks and histories as for C01 through the entry points that hand an Execution to the function, so that counters are read inside the function as well as in every listener. "+execRule, nil)
 }
+
+// durations placed around the limits of the timeouts in the stack: far below, just below, just above, far above
+func aroundLimits(r *Rng, reqs []ReqD) {
+	for qi := range reqs {
+		var limits []int64
+		for _, p := range reqs[qi].Stack {
+			if p.K == "Timeout" {
+				limits = append(limits, p.Limit)
+			}
+		}
+		if len(limits) == 0 {
+			continue
+		}
+		for si := range reqs[qi].Script {
+			l := Pick(r, limits)
+			reqs[qi].Script[si].Dur = Pick(r, []int64{0, l / 2, l - 1, l + 1, 2 * l, l - 1, l + 1, 3*l + 7})
+		}
+	}
+}
+
+func TestDrive_C07(t *testing.T) {
+	pf := execProfile{name: "C07", kinds: []string{"Timeout", "Timeout", "Retry", "Fallback", "Bulkhead", "Limiter", "Breaker"}, maxDepth: 4, mustHave: "Timeout", extPct: 0, coopPct: 50, maxReqs: 2, withExec: true}
+	driveExec(t, "C07", pf, 0, 0,
+		"stacks containing at least one Timeout (limits 1.5-8.5 us with distinct residues) alone and relative to retry, fallback, bulkhead, rate limiter and breaker, including nested timeouts; function durations placed at 0, limit/2, limit-1ns, limit+1ns, 2*limit, 3*limit+7 for cooperative (return on cancellation) and non-cooperative functions. Non-trivial = a timeout fired or a failure was handled. "+execRule,
+		func(w *CaseWriter, rng *Rng, add func(InstD, []ReqD, string)) {
+			n := 450
+			if envTier() == "thorough" {
+				n = 15000
+			}
+			for i := 0; i < n; i++ {
+				inst, reqs := genExecHistory(rng, pf)
+				if !boundedScript(reqs) {
+					continue
+				}
+				aroundLimits(rng, reqs)
+				add(inst, reqs, "around-limit")
+			}
+		})
+}
+
+func TestDrive_C08(t *testing.T) {
+	pf := execProfile{name: "C08", kinds: []string{"Retry", "Retry", "Fallback", "Breaker", "Bulkhead", "Limiter", "Timeout"}, maxDepth: 4, mustHave: "Retry", extPct: 0, coopPct: 60, maxReqs: 1}
+	driveExec(t, "C08", pf, 0, 0,
+		"single executions through stacks containing a retry policy (optionally with fallback, breaker, bulkhead, rate limiter, timeout); each scenario is first run without cancellation, then re-run with the caller's context cancelled (or its deadline reached) at instants taken from the uncancelled run's own event times, 1ns before and after them and midway between them, so that the cancellation lands inside the function, between attempts, during each kind of wait and before the first attempt. Non-trivial = the cancellation changed the outcome. "+execRule,
+		func(w *CaseWriter, rng *Rng, add func(InstD, []ReqD, string)) {
+			n := 110
+			if envTier() == "thorough" {
+				n = 4000
+			}
+			for i := 0; i < n; i++ {
+				inst, reqs := genExecHistory(rng, pf)
+				if !boundedScript(reqs) {
+					continue
+				}
+				reqs[0].Gap = 0
+				hasTimeout := false
+				for _, p := range reqs[0].Stack {
+					if p.K == "Timeout" {
+						hasTimeout = true
+					}
+				}
+				if hasTimeout { // exactly one cancellation source: a Timeout scenario is not cancelled from outside as well
+					add(inst, reqs, "timeout-source")
+					continue
+				}
+				base, start := runHistory(t, inst, reqs)
+				add(inst, reqs, "uncancelled")
+				var times []int64
+				for _, ev := range base[0].Events {
+					var tm int64
+					if k := strings.LastIndex(ev, "e_time := "); k >= 0 {
+						fmt.Sscanf(ev[k+len("e_time := "):], "%d", &tm)
+						times = append(times, tm-start)
+					}
+				}
+				times = append(times, base[0].End-start)
+				for v := 0; v < 4 && len(times) > 0; v++ {
+					tc := Pick(rng, times) + Pick(rng, []int64{-1, 1, 1, 0})
+					if rng.Chance(30) && len(times) > 1 {
+						a, b := Pick(rng, times), Pick(rng, times)
+						tc = (a + b) / 2
+					}
+					if tc <= 0 {
+						tc = 1
+					}
+					rq := reqs[0]
+					rq.ExtT = tc
+					rq.ExtKind = Pick(rng, []string{"Cancel", "Deadline"})
+					add(inst, []ReqD{rq}, "cancel-sweep")
+				}
+			}
+		})
+}
